@@ -457,3 +457,42 @@ func (p *Prog) buildsType(pkg *packages.Package, e ast.Node, typeName string, de
 	})
 	return found
 }
+
+// funcCallsDeep reports whether the function, one of its function literals, or a module function reachable from
+// them by static calls (three levels) contains a call matching pred. It is used to tell "the step is gone"
+// from "the step is somewhere the rule cannot see in order".
+func (p *Prog) funcCallsDeep(fi *FuncInfo, pred callPred) bool {
+	seen := map[string]bool{}
+	var walk func(pkg *packages.Package, body ast.Node, depth int) bool
+	walk = func(pkg *packages.Package, body ast.Node, depth int) bool {
+		found := false
+		ast.Inspect(body, func(x ast.Node) bool {
+			if found {
+				return false
+			}
+			c, ok := x.(*ast.CallExpr)
+			if !ok {
+				return true
+			}
+			if pred.fn(pkg, c) {
+				found = true
+				return false
+			}
+			if depth > 0 {
+				if callee := p.staticCallee(pkg, c); callee != nil && !seen[callee.Key] {
+					seen[callee.Key] = true
+					if walk(callee.Pkg, callee.Decl.Body, depth-1) {
+						found = true
+					}
+				}
+			}
+			return !found
+		})
+		return found
+	}
+	b := fi.body()
+	if b == nil {
+		return false
+	}
+	return walk(fi.Pkg, b, 3)
+}
